@@ -66,8 +66,8 @@ $(NETB)/marker_end.o: sim/marker_end.c | dirs
 # second copy of the example programs at -O0 (locals live on the stack: uninitialised pointers read the 0xA5 fill)
 NET_REPO_CFLAGS_O0 := $(REPO_CFLAGS_COMMON) -O0 $(NET_SAN) $(COV) -I$(EX)
 EX_SRCS := $(shell find $(EX) -name '*.c' | sort)
-$(NETB)/examples_O0.o: $(EX_SRCS) $(REPO_HDRS) Makefile tools/build_o0.sh | dirs
-	tools/build_o0.sh $(NETB)/exO0 $@ "$(CC)" "$(NET_REPO_CFLAGS_O0) $(REPO_EX_DEFS)" $(EX)
+$(NETB)/examples_O0.o: $(EX_SRCS) $(LIB_SRCS) $(REPO_HDRS) Makefile tools/build_o0.sh $(B)/repo_config.mk | dirs
+	tools/build_o0.sh $(NETB)/exO0 $@ "$(CC)" "$(NET_REPO_CFLAGS_O0) $(REPO_EX_DEFS)" $(EX) "$(REPO_LIB_DEFS)" $(LIB_SRCS)
 
 $(B)/net_sim: $(NETB)/marker_begin.o $(NET_LIB_OBJS) $(NET_EX_OBJS) $(NETB)/examples_O0.o $(NETB)/marker_end.o $(NET_SIM_OBJS)
 	$(CXX) -no-pie -fsanitize=address,bounds,integer-divide-by-zero $(NET_WRAPFLAGS) -o $@ $(NETB)/marker_begin.o $(NET_LIB_OBJS) $(NET_EX_OBJS) $(NETB)/examples_O0.o $(NETB)/marker_end.o $(NET_SIM_OBJS) -lm
@@ -163,6 +163,28 @@ $(GLIBB)/rec/%.o: %.cc $(wildcard sim/*.h spec/*.h bindings/*.h) Makefile | dirs
 $(B)/recg_sim: $(NETB)/marker_begin.o $(GCC_LIB_OBJS) $(NETB)/marker_end.o $(GCC_BIND_OBJS) $(GLIBB)/drv_can.o $(GLIBB)/drv_canbrief.o $(RECG_SIM_OBJS)
 	$(CXX) -no-pie -fsanitize=address -o $@ $(NETB)/marker_begin.o $(GCC_LIB_OBJS) $(NETB)/marker_end.o $(GCC_BIND_OBJS) $(GLIBB)/drv_can.o $(GLIBB)/drv_canbrief.o $(RECG_SIM_OBJS) -lm
 rec: $(B)/recg_sim
+
+# ---------------------------------------------------------------- third build for C05: no optimisation at all (what the repository's CMake does when no build type is given)
+G0B := $(B)/g0
+G0_CFLAGS := -std=gnu99 -O0 -g -fno-common -U_FORTIFY_SOURCE -D_FORTIFY_SOURCE=0 -I$(REPO)/include -w
+G0_LIB_OBJS := $(patsubst $(REPO)/src/%.c,$(G0B)/lib/%.o,$(LIB_SRCS))
+$(G0B)/lib/%.o: $(REPO)/src/%.c $(REPO_HDRS) Makefile $(B)/repo_config.mk | dirs
+	@mkdir -p $(dir $@)
+	$(GCC) $(G0_CFLAGS) $(REPO_LIB_DEFS) -c $< -o $@
+G0_BIND_OBJS := $(patsubst $(GEN)/%.c,$(G0B)/%.o,$(BIND_SRCS))
+$(G0B)/bind_%.o: $(GEN)/bind_%.c bindings/bind.h $(REPO_HDRS) | dirs
+	@mkdir -p $(G0B)
+	$(GCC) $(G0_CFLAGS) -Ibindings -c $< -o $@
+$(G0B)/drv_%.o: engines/reent/drv_%.c engines/reent/drivers.h $(REPO_HDRS) | dirs
+	@mkdir -p $(G0B)
+	$(GCC) $(G0_CFLAGS) -Iengines/reent -c $< -o $@
+REC0_SIM_OBJS := $(patsubst %.cc,$(G0B)/rec/%.o,$(REC_SIM_SRCS))
+$(G0B)/rec/%.o: %.cc $(wildcard sim/*.h spec/*.h bindings/*.h engines/reent/drivers.h) Makefile | dirs
+	@mkdir -p $(dir $@)
+	$(CXX) $(SIM_CXXFLAGS) -fsanitize=address -DREC_VARIANT_O0=1 -c $< -o $@
+$(B)/reco_sim: $(NETB)/marker_begin.o $(G0_LIB_OBJS) $(NETB)/marker_end.o $(G0_BIND_OBJS) $(G0B)/drv_can.o $(G0B)/drv_canbrief.o $(REC0_SIM_OBJS)
+	$(CXX) -no-pie -fsanitize=address -o $@ $(NETB)/marker_begin.o $(G0_LIB_OBJS) $(NETB)/marker_end.o $(G0_BIND_OBJS) $(G0B)/drv_can.o $(G0B)/drv_canbrief.o $(REC0_SIM_OBJS) -lm
+rec: $(B)/reco_sim
 
 dirs:
 	@mkdir -p $(B) $(NETB)/lib $(NETB)/ex $(NETB)/sim evidence replays
